@@ -728,6 +728,52 @@ theorem fds_execP (fdin : Option Handle) (tr : Trace) (ds : List Handle) (m : Ha
     | name n => exact h.failed rfl (by intro v hv; cases hv)
     | eof => exact h.failed rfl (by intro v hv; cases hv)
 
+/-! ## expr.c: the conditions that call the operating system during evaluation -/
+
+/-- One question of evaluation: a `command` condition runs `exec(argv, -1)` - its `fork` finds the descriptor table of
+`ForkFds` with the directory streams `ds`, the message's descriptor `m` and `/dev/null` as the child's standard input -, an
+`isdirectory` or file-time `date` condition calls `stat`; the descriptor table is afterwards what it was. -/
+theorem fds_sysCall (q : Req) (tr : Trace) (ds : List Handle) (m : Handle) (hds : ds.length ≤ 2)
+    (hop : ∀ d ∈ ds, Opened tr d) (hm : OpenedRd tr m) (h : FdsAre tr (ds ++ [m])) :
+    wp R ForkI (sysCall q) (fun _ tr' => FdsAre tr' (ds ++ [m])) tr := by
+  cases q with
+  | command av =>
+    unfold sysCall
+    refine wp_bind_ext (fds_execP none tr ds m hds hop hm (by simpa using h) (by intro fd e; cases e)) ?_
+    intro rc L hL
+    have hL' : FdsAre (tr ++ L) (ds ++ [m]) := by simpa using hL
+    exact hL'
+  | isDir p =>
+    unfold sysCall
+    simp only [call_bind, ret_bind]
+    refine wp_call (by plain) fun r _ => ?_
+    exact h.other rfl (.inl rfl)
+  | fileTime p f =>
+    unfold sysCall
+    simp only [call_bind, ret_bind]
+    refine wp_call (by plain) fun r _ => ?_
+    exact h.other rfl (.inl rfl)
+
+/-- A computation that asks, as a program: every `fork` is the one of a `command` condition. -/
+theorem fds_toProg {α} (t : Ask α) : ∀ (tr : Trace) (ds : List Handle) (m : Handle), ds.length ≤ 2 →
+    (∀ d ∈ ds, Opened tr d) → OpenedRd tr m → FdsAre tr (ds ++ [m]) →
+    wp R ForkI t.toProg (fun _ tr' => FdsAre tr' (ds ++ [m])) tr := by
+  induction t with
+  | ret a => intro tr ds m _ _ _ h; exact h
+  | ask q k ih =>
+    intro tr ds m hds hop hm h
+    simp only [Ask.toProg]
+    refine wp_bind_ext (fds_sysCall q tr ds m hds hop hm h) ?_
+    intro a L hL
+    exact ih a (tr ++ L) ds m hds (fun d hd => (hop d hd).mono L) (hm.mono L) hL
+
+/-- `expr_eval` in the run: the descriptors open at the `fork` of a `command` condition are the directory stream of the
+maildir, the descriptor of the message and `/dev/null`; evaluation leaves the descriptor table as it found it. -/
+theorem fds_evalP (env : Env) (e : Expr) (msg : Msg) (fl : MFlags) (tr : Trace) (ds : List Handle) (m : Handle)
+    (hds : ds.length ≤ 2) (hop : ∀ d ∈ ds, Opened tr d) (hm : OpenedRd tr m) (h : FdsAre tr (ds ++ [m])) :
+    wp R ForkI (evalP env e msg fl) (fun _ tr' => FdsAre tr' (ds ++ [m])) tr :=
+  fds_toProg _ tr ds m hds hop hm h
+
 /-! ## match.c: `matches_exec` -/
 
 /-- The directory stream of the maildir the message has been moved to, if the source has changed. -/
@@ -1041,7 +1087,11 @@ theorem fds_processMessage (env : PEnv) (orc : EvalOracles) (expr : Expr) (md : 
       | none => exact ⟨rfl, hpm⟩
       | some ms =>
         obtain ⟨fd, hfd, hrd, hS⟩ := hpm
-        exact fds_afterVerdict env md name st ms _ _ d fd hd ((hop d hd).mono _) hfd hrd hS
+        unfold afterParse evalMs
+        refine wp_bind_ext (fds_evalP _ expr ms.msg ms.flags (tr ++ L) [d] fd (by simp)
+          (by intro x hx; simp only [List.mem_singleton] at hx; subst hx; exact (hop x hd).mono _) hrd hS) ?_
+        intro ev L2 hL2
+        exact fds_afterVerdict env md name st ms _ _ d fd hd (((hop d hd).mono _).mono _) hfd (hrd.mono _) hL2
 
 /-! ## a maildir -/
 
